@@ -227,3 +227,12 @@ for op in DISP_OPS:
 for v in ("c01_len0", "c01_len39"):
     reg(DISP, "short::" + v, ["C01"], tier="quick" if v.endswith("39") else "thorough", flavour="model", timeout=900, support=MSUP, cost=5, mem=14,
         what="request shorter than the in-header", bounds="all bytes symbolic", functions=DISP_FUNCS, stubs=SRV_STUBS, role="dispatch:short")
+
+INIT = "harness/model/srvsync__init.rs"
+for v, q in [("c12_major_low", True), ("c12_major_high", True), ("c12_v7_legacy", True), ("c12_v7_ext", True), ("c12_v7_ext_partial", False),
+             ("c12_v7_fs_fails", False), ("c12_v7_devfail", False), ("c12_v7_nospace", False)]:
+    reg(INIT, "init_h::" + v, ["C12"], tier="quick" if q else "thorough", flavour="model", timeout=900, support=MSUP, cost=3,
+        what="Server::init (%s)" % v,
+        bounds="major (within its class), minor, max_readahead, flags, flags2 and the filesystem's wanted option word all symbolic (full width); payload presence 16/40/64 bytes concrete",
+        functions=["Server::init", "FsOptions::from_bits_truncate", "reply_ok/do_reply_error", "Server.vers (ArcSwap model)"],
+        stubs=SRV_STUBS + ["pagesize() = 4096 (model transport)", "arc-swap replaced by its sequential specification (models/arc-swap-seq)"], role="init:" + v)
